@@ -14,6 +14,9 @@ every run is made with is_iteration_history=True and
     (C05_two_runs_agree), fixed points, returned point == last history x, argument / receiver left unchanged.
 Sensitivity was established in round 2 by 41 seeded changes of the anchored loop (docs/reports/C05.md): 40 reported, the
 remaining one (correction term dropped on the equality side only) is behaviour-preserving.
+Round 3: the loop skeleton and the stopping-criterion arithmetic are additionally tied by TRANSLATION: gen/c05_py2coq.py regenerates them from the
+source on every run and coq/gen/C05_Equiv*.v proves them equal to the model (regen_dykstra, run in a thread next to the sub-checks);
+the normal-cone characterisation of both projections is checked at every record (all_records_normal_cone).
 Convergence / termination within max_iteration is NOT claimed: an out-of-fuel run is a distinct, labelled outcome whose
 bounds are evaluated with the error value actually reached."""
 import io, contextlib, math, random
@@ -222,11 +225,12 @@ def config_of(o):
             o.on_algo_ineq_constraint, o.mode_proj_order, o.eps_proj_physical)
 
 
-def impl_run(case, c, hist=True, order=None, level=None):
-    """one call of the routine under test; returns a Run with the history as float arrays"""
+def impl_run(case, c, hist=True, order=None, level=None, obj=None):
+    """one call of the routine under test; returns a Run with the history as float arrays.
+    obj: an object a previous call was made on (the routines keep no state: a second call must give the same answer)"""
     kind, m, para, eps, mi = case["kind"], case["m"], case["para"], case["eps"], case["max_iter"]
     order = order or case["order"]; level = level or case["level"]
-    o = build(kind, c, case["sv"], m, para, order, eps)
+    o = obj if obj is not None else build(kind, c, case["sv"], m, para, order, eps)
     R = Run(); R.o = o; R.order = order; R.level = level
     R.cfg_before = config_of(o)
     buf = io.StringIO()
@@ -604,9 +608,9 @@ def chk_run(ctx, case):
         st["p_ratio"] = max(st["p_ratio"], math.sqrt(R.cert["pp"]) / (1 + nx0))
 
     # ---- is_iteration_history=False returns the same point
-    R2 = impl_run(case, c, hist=False)
+    R2 = impl_run(case, c, hist=False, obj=R.o)       # second call, on the SAME object, without history
     if not np.array_equal(R2.res_sv, R.res_sv) or R2.warned != R.warned:
-        ctx.violation(sub, site, "history-flag-changes-result", "is_iteration_history=False gives a different result / warning", case)
+        ctx.violation(sub, site, "history-flag-changes-result", "a second call on the same object with is_iteration_history=False gives a different result / warning", case)
 
     nontriv = K >= 2 and not in_band and cert_ok
     lab = "%s/%s/%s/%s/%s" % (kind, case["level"], case["order"], case["gen"], outcome if mi >= 1000 else "fuel-edge")
